@@ -299,7 +299,10 @@ pub fn truth(reg: &Registry, s: &dyn Subject, p: &Ov, run: &Run) -> Vec<Untrue> 
                             ty_at(&reg.defs, s.ty(), p, &r.loc).map(|t| through_conv(&reg.defs, &t)),
                             Some(Ty::Named(n)) if matches!(reg.defs.0.get(&n), Some(Def::Enum(e)) if e.tag == *field)
                         );
-                        if !is_tag {
+                        // ... which only happens when the tag could be taken out, i.e. some member under that key
+                        // holds a string (round 9: a tag that is present but null / not a string is not "missing")
+                        let tag_taken = m.iter().any(|(k, v)| k == field && matches!(v, Ov::Str(_)));
+                        if !(is_tag && tag_taken) {
                             bad("missing-field-is-present", format!("r{}: field {:?} reported missing at {:?} but the object has it", r.id, field, render_path(&r.loc)));
                         }
                     }
